@@ -83,6 +83,10 @@ func editNeighbours(s string) []string {
 }
 
 func init() {
+	// accepted suite strings of every length class around the pooled buffer's capacity
+	for _, n := range []int{100, 116, 117, 118, 119, 500, 30000} {
+		aSuiteS = append(aSuiteS, "OCRA-1:HOTP-SHA1-6:QN08"+strings.Repeat("-C", n), "OCRA-1:HOTP-SHA512-8:C-QH10-PSHA1-S128-T1M"+strings.Repeat("-S", n))
+	}
 	for _, base := range []string{"OCRA-1:HOTP-SHA1-6:QN08-S12", "OCRA-1:HOTP-SHA256-8:C-QA10-PSHA256-S064-T1M", "OCRA-1:HOTP-SHA512-10:QH10-T48H"} {
 		aSuiteS = append(aSuiteS, editNeighbours(base)...)
 	}
@@ -94,6 +98,14 @@ func init() {
 			}
 		}
 	}
+}
+
+func aSuiteSLong() []string {
+	var out []string
+	for _, n := range []int{100, 116, 117, 118, 119, 500, 30000} {
+		out = append(out, "OCRA-1:HOTP-SHA1-6:QN08"+strings.Repeat("-C", n), "OCRA-1:HOTP-SHA512-8:C-QH10-PSHA1-S128-T1M"+strings.Repeat("-S", n))
+	}
+	return out
 }
 
 func mkLen(n int, seed byte) []byte {
@@ -170,6 +182,12 @@ func suiteConfigs() []otp.SuiteConfig {
 				}
 			}
 		}
+	}
+	// arbitrary suite-string text on usable configurations: empty, around 256 bytes, huge
+	for i, n := range []int{0, 1, 254, 255, 256, 257, 1024, 65536} {
+		raw := strings.Repeat("r", n)
+		out = append(out, otp.SuiteConfig{Raw: raw, Hash: otp.Algorithm(i % 3), Digits: 6, Challenge: 1, IncludeChallenge: true},
+			otp.SuiteConfig{Raw: raw, Hash: otp.Algorithm(i % 3), Digits: 8, Challenge: 6, IncludeCounter: true, IncludeChallenge: true, IncludePassword: true, IncludeSession: true, IncludeTimestamp: true, PasswordHash: 1, TimeStep: 60})
 	}
 	return out
 }
@@ -293,6 +311,29 @@ func c10Descs() []desc {
 			su, sd := suites(ix[2])
 			in := oi[ix[3]]
 			return fmt.Sprintf("%s, %s, %s, lens(%d,%d,%d,%d,%d)", sh(s), sh(code), sd, len(in.Counter), len(in.Challenge), len(in.Password), len(in.SessionInfo), len(in.Timestamp)), func() { otp.ValidateOCRA(s, code, su, in) }
+		}},
+		{"GenerateOCRA/ValidateOCRA-long-suite-text", "GenerateOCRA", []int{16 + 14, len(oi)}, func(ix []int) (string, func()) {
+			var su otp.Suite
+			var sd string
+			if ix[0] < 16 {
+				c := sc[len(sc)-16+ix[0]]
+				su, sd = c, fmt.Sprintf("SuiteConfig with %d bytes of suite text, digits %d", len(c.Raw), c.Digits)
+			} else {
+				name := aSuiteS[len(aSuiteS)-14-3*10*0+0:][0]
+				_ = name
+				k := ix[0] - 16
+				longNames := aSuiteSLong()
+				s, err := otp.NewRawSuite(longNames[k%len(longNames)])
+				if err != nil {
+					return "", nil
+				}
+				su, sd = s, fmt.Sprintf("NewRawSuite(%d bytes)", len(longNames[k%len(longNames)]))
+			}
+			in := oi[ix[1]]
+			return fmt.Sprintf("%s, lens(%d,%d,%d,%d,%d)", sd, len(in.Counter), len(in.Challenge), len(in.Password), len(in.SessionInfo), len(in.Timestamp)), func() {
+				otp.GenerateOCRA(aSecrets[2], su, in)
+				otp.ValidateOCRA(aSecrets[2], strings.Repeat("1", su.Config().Digits%300), su, in)
+			}
 		}},
 		{"ValidateOCRA-code-of-length-digits", "ValidateOCRA", []int{len(sc)}, func(ix []int) (string, func()) {
 			c := sc[ix[0]]
